@@ -257,6 +257,8 @@ cpdef Dense matmul_csr_dense_dense(CSR left, Dense right,
                     idx_r += 1
     if tmp is None:
         return out
+    # `out` was computed in the other memory order than the caller's matrix.
+    out = out.reorder()
     memcpy(tmp.data, out.data, ncols * nrows * sizeof(double complex))
     return tmp
 
